@@ -553,6 +553,7 @@ Error CodeHolder::new_section(Out<Section*> section_out, const char* name, size_
 
   Section_init_data(section, section_id, flags, alignment, order, Globals::kNoSectionOffset);
   Section_init_buffer(section);
+  memset(section->_name.str, 0, sizeof(section->_name.str));
   memcpy(section->_name.str, name, name_size);
 
   Section** insert_position = std::lower_bound(_sections_by_order.begin(), _sections_by_order.end(), section, [](const Section* a, const Section* b) {
